@@ -198,6 +198,11 @@ package gabi
 //@   requires p != nil && wfpk(pk) && context != nil && nonce1 != nil && nonnegD(p)
 //@   ensures accept: result ==> structD(p, pk) && sizesD(p, pk)
 //@   ensures hidden: result ==> forall idx in dom(p.RangeProofs) :: in(p.AResponses, idx)
+//@   ghost at createChallenge chal: val($r)
+//@   ghost at createChallenge flag: $3
+//@   ghost at createChallenge ctx: ref($0)
+//@   ghost at createChallenge nonce: ref($1)
+//@   ensures session: result ==> val(p.C) == ghost(chal) && ghost(flag) == b2i(issig) && ghost(ctx) == ref(context) && ghost(nonce) == ref(nonce1)
 //@   modifies p.cachedRangeStructures, p.NonRevocationProof.Nu, p.NonRevocationProof.Challenge, mapof(p.NonRevocationProof.Responses), p.NonRevocationProof.SignedAccumulator.Accumulator, p.NonRevocationProof.acc, heap("rangeproof.Proof.MResponse")
 //@   mustfail canary: !result
 
@@ -205,6 +210,11 @@ package gabi
 //@   property C02 C06 C08
 //@   requires p != nil && wfpk(pk) && context != nil && nonce != nil
 //@   ensures accept: result ==> structU(p, pk) && 0 <= val(p.VPrimeResponse) && val(p.VPrimeResponse) <= pow2(pk.Params.LvPrimeCommit+1)-1
+//@   ghost at createChallenge chal: val($r)
+//@   ghost at createChallenge flag: $3
+//@   ghost at createChallenge ctx: ref($0)
+//@   ghost at createChallenge nonce: ref($1)
+//@   ensures session: result ==> val(p.C) == ghost(chal) && ghost(flag) == 0 && ghost(ctx) == ref(context) && ghost(nonce) == ref(nonce)
 //@   modifies nothing
 //@   mustfail canary: !result
 
